@@ -121,7 +121,9 @@ func (r *redisStore) SetTokenResponse(ctx context.Context, sessionID string, tok
 		return err
 	}
 
-	return r.refreshExpiration(ctx, sessionID, now)
+	// The absolute timeout counts from the creation of the session, which for an existing
+	// session is not now: let refreshExpiration read the stored creation time.
+	return r.refreshExpiration(ctx, sessionID, time.Time{})
 }
 
 func (r *redisStore) GetTokenResponse(ctx context.Context, sessionID string) (*TokenResponse, error) {
@@ -178,7 +180,9 @@ func (r *redisStore) SetAuthorizationState(ctx context.Context, sessionID string
 		return err
 	}
 
-	return r.refreshExpiration(ctx, sessionID, now)
+	// The absolute timeout counts from the creation of the session, which for an existing
+	// session is not now: let refreshExpiration read the stored creation time.
+	return r.refreshExpiration(ctx, sessionID, time.Time{})
 }
 
 func (r *redisStore) GetAuthorizationState(ctx context.Context, sessionID string) (*AuthorizationState, error) {
